@@ -377,6 +377,11 @@ class Evaluator(object):
                 if isinstance(fl, ExtRef):
                     fl = fl.dotted
                 return Regex(args[0], fl)
+            if name == "re.escape":
+                import re as _re
+                if isinstance(args[0], str):
+                    return _re.escape(args[0])
+                return self._dyn(call)
             if name == "uuid.UUID":
                 return ("UUID", str(args[0]).lower())
             if name == "builtins.range":
